@@ -71,12 +71,12 @@ theorem Box3.closestPointOnBox_cases [LinearOrder α] [Sub α] (p : V3 α) (b : 
        apply hI hni hm
        unfold Box3.InsideChoice
        first
-        | (left; refine ⟨rfl, ?_⟩; bord)
-        | (right; left; refine ⟨rfl, ?_⟩; bord)
-        | (right; right; left; refine ⟨rfl, ?_⟩; bord)
-        | (right; right; right; left; refine ⟨rfl, ?_⟩; bord)
-        | (right; right; right; right; left; refine ⟨rfl, ?_⟩; bord)
-        | (right; right; right; right; right; refine ⟨rfl, ?_⟩; bord))
+        | (left; refine ⟨rfl, ?_, ?_, ?_, ?_, ?_⟩ <;> order)
+        | (right; left; refine ⟨rfl, ?_, ?_, ?_, ?_, ?_⟩ <;> order)
+        | (right; right; left; refine ⟨rfl, ?_, ?_, ?_, ?_, ?_⟩ <;> order)
+        | (right; right; right; left; refine ⟨rfl, ?_, ?_, ?_, ?_, ?_⟩ <;> order)
+        | (right; right; right; right; left; refine ⟨rfl, ?_, ?_, ?_, ?_, ?_⟩ <;> order)
+        | (right; right; right; right; right; refine ⟨rfl, ?_, ?_, ?_, ?_, ?_⟩ <;> order))
     | -- p outside: the result is the clip
       (have e := hO hni (by rintro ⟨⟨m1, m2⟩, ⟨m3, m4⟩, ⟨m5, m6⟩⟩; order)
        simp only [Box3.clipN, sclamp, *, if_true, if_false] at e
